@@ -713,6 +713,25 @@ theorem var_typed (o : NumOracle F) (strong : Bool) (cols : List Col) (vars : Li
         Option.map_some, Option.some.injEq] at this
       exact this
 
+/-! ## 4c. `dataframe::read` -/
+
+/-- **read_by_extension.**  `dataframe::read` reads a file as XRFF exactly when its extension is `.xrff`
+    or `.xml` in any mixture of upper and lower case, and as CSV otherwise; in either case with the same
+    parameters (the hook for XRFF; everything for CSV) and the result of that reader. -/
+theorem read_by_extension (cfg : Cfg) (o : NumOracle F) (p : Params) (ext bytes : Str) (doc : XDoc) :
+    (isXrffExt ext = true ↔ (ext.map toLower = ".xrff".toList ∨ ext.map toLower = ".xml".toList)) ∧
+    (isXrffExt ext = true → readFile cfg o p ext bytes doc = readXrffH cfg o p.hook doc) ∧
+    (isXrffExt ext = false → readFile cfg o p ext bytes doc =
+      (readCsv cfg o p bytes >>= fun df => pure (df, df.examples.length))) := by
+  refine ⟨?_, ?_, ?_⟩
+  · unfold isXrffExt
+    rw [Bool.or_eq_true, iequals_iff, iequals_iff]
+    have h1 : (".xrff".toList).map toLower = ".xrff".toList := by decide
+    have h2 : (".xml".toList).map toLower = ".xml".toList := by decide
+    rw [h1, h2]
+  · intro h; simp [readFile, h]
+  · intro h; simp [readFile, h]
+
 /-! ## 5. sniffer -/
 
 /-- **sniff_agrees.**  On the tables of the class `Unambiguous` (defined in LemmasSniff.lean: at
